@@ -131,3 +131,49 @@ claim('C13', 'guard-existence and raising-edge analysis against the documented s
       'of top_order removes a node or raises. That every ill-formed schema is caught, and termination of _match on every accepted '
       'model beyond the tree property, are not decided.',
       'docs/src/lvs/binary-format.rst lists exactly the mandatory rules')
+
+claim('C01', 'linear size algebra over the encoder methods (normal-form equality), def-use agreement of value normalisations, decision-table comparison, ordering/provenance checks on make/parse',
+      'Decides structural necessary conditions of the round trip: per Field class the value measured is the value written (SIZ.1a) and the '
+      'announced size equals the reported/advanced size symbolically (SIZ.1b); shrink_length offsets (diff + TL sizes identity, both '
+      'views end at -val); signature shrink bookkeeping and the 253 guard; make_* encode, then shrink iff shrink_size > 0, return that '
+      'buffer; make_interest/parse_interest copy the same six InterestParam fields name-to-name and pass name/params/payload through; '
+      'the parameters-digest component is type 0x02, length 32, announced as 34 bytes, its buffer is the 32-byte value; VAR-NUMBER tables. '
+      'Does not decide equality of returned values for all names/payloads or the signers themselves.',
+      'struct widths; signer.get_signature_value_size() >= real size')
+
+claim('C02', 'extracted model field order vs signed-portion definition, wiring/provenance checks, CFG ordering, loop-shape (consume-all) checks, signer/verifier sibling tables',
+      'Decides: marker placement gives the NDN 0.3 signed portion for Data [07,14,15,16] and Interest [24,2c] and digest portion '
+      '[24,2c,2e] to the end; SignatureValueField / InterestNameField are wired to the model\'s own procedure arguments; the covered '
+      'slice is wire[start:offset] taken before the signature TLV is written and wire[start:offset_btl] at parse; every name component '
+      'except the parameters digest is covered; signature before digest, digest over the shrunk range, written into the name; every '
+      'signer/verifier/digest checker consumes all covered blocks in order; digest checkers are truthy only through digest == value and '
+      'refuse empty parts; signer and verifier agree on type constant and scheme parameters; verifiers return True only after verify(). '
+      'Cryptographic soundness (tampering is rejected) is not decided.',
+      'Cryptodome primitives; NDN packet format 0.3 signed-portion definition as transcribed')
+
+claim('C07', 'taint/bounds dominance on wire-derived lengths, interprocedural escape sets of the decoders, guard existence for the mandatory Name, decision tables, model order vs format, loop-progress checks',
+      'Decides: a Length read from the wire is compared (raising) with the buffer, or with a counter that itself was so compared, before '
+      'it bounds a slice or is passed on (two known findings in TlvModel.parse); the five decoders raise only documented decoding '
+      'errors; parse_interest/parse_data refuse a packet without Name and check the outer type; Uint widths {1,2,4,8}; packet models '
+      'follow the format\'s element order and fixed widths; scan loop: search from the current position, single fields advance, '
+      'repeated/map stay, unknown critical raises, every element is skipped by its length; decode loops consume input. '
+      'Value equality with a strict reading is not decided.',
+      'NDN packet format 0.3 / certificate format orders as transcribed; critical = odd type (library documentation)')
+
+claim('C08', 'decision-table extraction and comparison with VAR-NUMBER / NonNegativeInteger, linear size algebra per Field class, loop-shape checks on the model walker and metaclass, lint over all 64 extracted models',
+      'Decides: the four VAR-NUMBER functions and the four NonNegativeInteger functions implement the shortest-form tables and agree; '
+      'per Field class value normalisations agree and announced == written size symbolically; TlvModel.encoded_length/encode/__eq__ walk '
+      '_encoded_fields completely in order and the buffer is sized by encoded_length; the metaclass keeps class-body order; every '
+      'shipped model has distinct sibling type numbers, resolvable nested models and acyclic nesting; scan-loop critical-bit rule '
+      '(shared with C07); map value type check (known finding). Equality after decode for all values / generated classes is not decided.',
+      'struct widths B/H/I/Q; static model extraction equals the metaclass result (validated in the self-test)')
+
+claim('C09', 'decision tables (shortest form), sibling comparison of the three normalisers and of the URI writers, constant folding of CHARSET and the alternate-URI tables, linear size agreement of Name.encode/encoded_length',
+      'Decides: shortest-form type/length numbers and component assembly; the three NonStrictName normalisers convert str via '
+      'Name.from_str and text components via Component.from_str(escape_str(c)), refuse other types; to_str/to_canonical_uri share the '
+      'escaping rule (raw iff in CHARSET and not % or =), length check and type prefix, Name writers differ only in the component '
+      'function; CHARSET = unreserved + {=,%} without /; from_str treats exactly % and = as metacharacters; alternate URI tables are '
+      'inverse and match the naming conventions; digest shorthands symmetric; typed numbers use the smallest width; is_prefix '
+      'normalises both sides and bounds the slice; Name.encode allocates what encoded_length announces. '
+      'Round-trip identity over all byte values is not decided.',
+      'NDN naming conventions table as transcribed')
